@@ -98,19 +98,22 @@ class Body:
         return self.locals[0]["ty"]
 
     # ---- iteration helpers
-    def terms(self):
+    # iteration skips cleanup (unwind-only) blocks: the rules talk about executions that do not unwind
+    def terms(self, cleanup=False):
         for i, b in enumerate(self.blocks):
-            if b["term"] is not None:
+            if b["term"] is not None and (cleanup or not b.get("cleanup")):
                 yield i, b["term"]
 
-    def calls(self):
+    def calls(self, cleanup=False):
         for i, b in enumerate(self.blocks):
             t = b["term"]
-            if t is not None and t["k"] == "call":
+            if t is not None and t["k"] == "call" and (cleanup or not b.get("cleanup")):
                 yield i, t
 
-    def stmts(self):
+    def stmts(self, cleanup=False):
         for i, b in enumerate(self.blocks):
+            if b.get("cleanup") and not cleanup:
+                continue
             for j, s in enumerate(b["stmts"]):
                 yield i, j, s
 
